@@ -453,7 +453,7 @@ package data
 // General-rank interface model ("ndmodel rowmajor"): an array x of unknown back-end has
 // extents x.shape (x.rank of them) and row-major elements x.at(j), j < iprod(x.shape).
 //@ iface rowmajor:Shape(x) returns (s)
-//@   ensures len(s) == x.rank && forall(k, 0, x.rank, s[k] == x.shape[k])
+//@   ensures s.id == x.g_shapeid && len(s) == x.rank && forall(k, 0, x.rank, s[k] == x.shape[k])
 //@   assigns nothing
 //@ iface rowmajor:Get(x, loc) returns (v)
 //@   requires len(loc) == x.rank && forall(k, 0, x.rank, 0 <= loc[k] && loc[k] < x.shape[k])
